@@ -187,11 +187,20 @@ def pat_vars(p):
     return set()
 
 
+# compressed generators of BLS12-381's G1 and G2; the negation of a point with y # 0 differs in the sign bit (0x20 of the first byte) only;
+# the point at infinity is 0xc0 followed by zeros
+_G1 = "97f1d3a73197d7942695638c4fa9ac0fc3688c4f9774b905a14e3a3f171bac586c55e83ff97a1aeffb3af00adb22c6bb"
+_G2 = ("93e02b6052719f607dacd3a088274f65596bd0d09920b61ab5da61bbdc7f5049334cf11213945d57e5ac7d055d042b7e"
+       "024aa2b2f08f0a91260805272dc51051c6e47ad4fa403b02b4510b647ae3d1770bac0326a805bbefd48056c8c121bdb8")
+POINTS = {("g1", 1): _G1, ("g1", -1): "b7" + _G1[2:], ("g1", 0): "c0" + "00" * 47,
+          ("g2", 1): _G2, ("g2", -1): "b3" + _G2[2:], ("g2", 0): "c0" + "00" * 95}
+
+
 def free_vars(e):
     k = e["k"]
     if k == "var":
         return {e["x"]}
-    if k in ("int", "bool", "bytes", "str", "void", "fail", "todo", "fnref"):
+    if k in ("int", "bool", "bytes", "str", "point", "void", "fail", "todo", "fnref"):
         return set()
     if k in ("neg", "not", "traceif", "todata", "field", "tupidx"):
         return free_vars(e["e"])
@@ -872,6 +881,8 @@ def render(e, ind=1):
         return '#"%s"' % hexs(e["bs"])
     if k == "str":
         return '@"%s"' % "".join("\\\"" if c == 34 else "\\\\" if c == 92 else chr(c) for c in e["cs"])
+    if k == "point":           # the multiple n of the generator of G1 / G2, for n in -1, 0, 1 (the compressed forms one knows by heart)
+        return '#<Bls12_381, %s>"%s"' % (e["g"].upper(), POINTS[(e["g"], e["n"])])
     if k == "void":
         return "Void"
     if k == "var":
